@@ -418,4 +418,27 @@ def _load_images(frames_dir: str) -> list:
             os.listdir(frames_dir), key=lambda name: (len(name), name)
         )
     ]
-    return [imageio.imread(frame) for frame in frames]
+    images = [imageio.imread(frame) for frame in frames]
+    return _pad_to_same_shape(images)
+
+
+def _pad_to_same_shape(images: list) -> list:
+    """Pads the images with white, at the bottom and on the right, to the
+    size of the largest one.
+
+    Frames are saved with ``bbox_inches="tight"``, so their size changes when
+    the legend gets wider (for example, when "Job 10" first appears).
+    """
+    shapes = {image.shape for image in images}
+    if len(shapes) <= 1:
+        return images
+    height = max(shape[0] for shape in shapes)
+    width = max(shape[1] for shape in shapes)
+    padded_images = []
+    for image in images:
+        padded_image = np.full(
+            (height, width) + image.shape[2:], 255, dtype=image.dtype
+        )
+        padded_image[: image.shape[0], : image.shape[1]] = image
+        padded_images.append(padded_image)
+    return padded_images
